@@ -547,7 +547,7 @@ func runChain(c uCase, raw string, schema *jsonapi.Schema, req uReq) uEvent {
 }
 
 var (
-	idVocab = []string{"1", "1", "a b", "a&b", "a?b", "a#b", "50%", "a+b", "a=b", "é漢", "x\"y", ".", "..", "a.b", "~x"}
+	idVocab = []string{"1", "1", "a b", "a&b", "a?b", "a#b", "50%", "a+b", "a=b", "é漢", "x\"y", ".", "..", "a.b", "~x", "a%41b", "x%2Fy", "%25"}
 	// a label is read as the content of a JSON string: the last five are the
 	// raw texts of labels that contain a backslash, a quote, a line feed, a
 	// tab and a leading brace once parsed
